@@ -19,7 +19,13 @@ Families
                     `handle_event`s and replayed through `ThreadPool.step`.
   preempt-direct    ≤40 acquire / release calls on a real `PreemptibleResource` (capacity 1–4, amounts
                     1–cap and malformed ones, priorities 0–3 with many ties, preempt flag, double release,
-                    release of a preempted grant, release of a grant not yet given).
+                    release of a preempted grant, release of a grant not yet given).  Acquires may carry a
+                    *callback program* (`progs`): actions the grant's `on_preempt` callback performs on the same
+                    resource while `_try_preempt` is running — release (own grant, another holder, the co-victim
+                    of the same round, a waiter, dead and unknown ids), nested acquire (amount, priority, preempt
+                    flag, its own program), counter query.  Every action is logged from inside the callback
+                    (`cb <victim> …` lines) and judged: held + available = capacity after every observation,
+                    every amount returned once, victims and wake-ups in order.
 
 Generator restrictions (the property is false of the code outside them; see fixes/C09-extra-*.md):
   * bulkhead-engine: the protected target is a plain entity whose `handle_event` *is* the service
@@ -37,6 +43,10 @@ Generator restrictions (the property is false of the code outside them; see fixe
     (to be done once the patch is applied); the model is run with `wakeAfterPreempt = true`
     (`PREEMPT_MODEL_FIX = 1`), which coincides with the unpatched code on the restricted inputs.
 
+  * preempt-direct, callback programs: see `PREEMPT_CB_LIFT` below (fixes/C09-preempt-callback-reentrancy.{md,diff},
+    witnesses corpus/C09/pending/preempt-callback-*.json).  The model (`HappyModel/C09/PreemptCb.lean`, a small-step machine
+    with an explicit call stack; theorems in `HappyProofs/C09/PreemptCb{Inv,Step,Props}.lean`) has the repaired order.
+
 What the judges do not cover: `ThreadPool` with a LIFO / priority `queue_policy` (FIFO only), user completion
 hooks on requests sent through a Bulkhead, PreemptibleResource inside an engine (the SimFuture resumption
 clause is judged for `Resource`, which uses the same mechanism).
@@ -44,6 +54,7 @@ clause is judged for `Resource`, which uses the same mechanism).
 from __future__ import annotations
 
 import json
+import os
 import random
 
 TICK = 125_000_000
@@ -75,6 +86,10 @@ THEOREMS = [
     "HappyModel.C09.preempt_trace_satisfies_spec",
     "HappyModel.C09.tpool_trace_satisfies_spec",
     "HappyModel.C09.tpool_trace_satisfies_spec_drained",
+    "HappyModel.C09.preempt_cb_conservation",
+    "HappyModel.C09.preempt_cb_held_le_capacity",
+    "HappyModel.C09.preempt_release_idempotent",
+    "HappyModel.C09.preempt_cb_trace_satisfies_spec",
 ]
 
 import happysimulator.components.industrial.preemptible_resource  # noqa: E402,F401
@@ -123,18 +138,33 @@ def gen_tpool(rng, tier):
 
 PREEMPT_RESTRICT = False   # see the module docstring; False regenerates the defect trigger
 
+# Re-entrant `on_preempt` callbacks (fixes/C09-preempt-callback-reentrancy.{md,diff}).  At the pinned commit a
+# callback that releases another *live* grant, or acquires, or merely reads the counters finds the resource in the
+# middle of `_try_preempt` (victim flagged released, amount not yet returned; a later `list.remove` raises).  Until
+# the patch is applied the generated programs are restricted to what is a no-op there — `release()` of the
+# victim's own grant, of grants that are already released / preempted, of unknown ids — and nested lines carry no
+# counters (`cbobs = 0`).  HV_C09_PREEMPT_CB_LIFT=1 generates the full language (release of other holders, of the
+# other victim of the same round, nested acquires with and without preemption, counter queries inside callbacks).
+PREEMPT_CB_LIFT = os.environ.get("HV_C09_PREEMPT_CB_LIFT", "0") == "1"
+NO_CB = 999                # program index meaning "no program"
+
 
 def gen_preempt(rng, tier):
-    """ops: ["acq", amount, priority, preempt(0/1)] (the k-th acquire of the list is call id k) and ["rel", id]"""
+    """ops: ["acq", amount, priority, preempt(0/1), cb] and ["rel", id].  Acquire calls are numbered in the order
+    they *return* (call id; without nested acquires: the k-th acquire of the list is call id k).  `cb` indexes
+    `progs`: the actions the grant's `on_preempt` callback performs on the same resource —
+    ["rel", id] | ["acq", amount, priority, preempt, cb] | ["q"]."""
     cap = rng.choice([1, 2, 2, 3, 3, 4])
     n = rng.choice([3, 6, 10, 16, 25] if tier == "quick" else [3, 6, 10, 16, 25, 40])
     nprio = rng.choice([1, 2, 3, 4])
-    ops, nid = [], 0
-    sim = _PlanPreempt(cap)           # generation bias / restriction only, never an oracle
+    with_cb = rng.random() < 0.7
+    lift = PREEMPT_CB_LIFT
+    progs, ops = [], []
+    sim = _PlanPreempt(cap, progs)    # generation bias / restriction only, never an oracle
     dead = []
     for _ in range(n):
         r = rng.random()
-        if r < 0.55 or nid == 0:
+        if r < 0.55 or sim.nid == 0:
             q = rng.random()
             if q < 0.88:
                 amt = rng.randint(1, cap)
@@ -146,9 +176,17 @@ def gen_preempt(rng, tier):
             pre = 1 if rng.random() < 0.6 else 0
             if PREEMPT_RESTRICT and pre and 0 < amt <= cap and sim.leaves_head_grantable(amt, prio):
                 pre = 0
-            ops.append(["acq", amt, prio, pre])
-            sim.acquire(nid, amt, prio, pre)
-            nid += 1
+            cb = NO_CB
+            prog = None
+            if with_cb and 0 < amt <= cap and len(progs) < 12 and rng.random() < 0.6:
+                cb = len(progs)
+                prog = []
+                progs.append(prog)            # filled in below, once the call id of this acquire is known
+            ops.append(["acq", amt, prio, pre, cb])
+            before = set(g[0] for g in sim.active)
+            own = sim.acquire(amt, prio, pre, cb)
+            if prog is not None:
+                prog.extend(_gen_prog(rng, sim, own, before, cap, nprio, cb, dead, lift))
         else:
             live = [g[0] for g in sim.active]
             q = rng.random()
@@ -162,20 +200,90 @@ def gen_preempt(rng, tier):
             elif sim.waiters and q < 0.97:
                 i = rng.choice(sim.waiters)[0]             # release of a grant not yet given
             else:
-                i = nid + rng.randint(0, 2)                # unknown id
+                i = sim.nid + rng.randint(0, 2)            # unknown id
             ops.append(["rel", i])
             sim.release(i)
-    return {"family": "preempt-direct", "cap": cap, "ops": ops}
+    case = {"family": "preempt-direct", "cap": cap, "ops": ops}
+    if progs:
+        case["progs"] = progs
+        case["cbobs"] = 1 if lift else 0
+    return case
+
+
+def _gen_prog(rng, sim, own, before, cap, nprio, k, dead, lift):
+    """the callback program of the acquire that was just planned as call id `own` (program index `k`)"""
+    acts = []
+    peers = [g for g in sim.active if g[0] != own]           # holders right now: likely co-victims / the preemptor's peers
+    for _ in range(rng.choice([1, 1, 2, 2, 3])):
+        q = rng.random()
+        if not lift:
+            # only what is a no-op on the code as it is: own grant (flagged released when the callback runs),
+            # grants that are dead for good, ids nobody has
+            if q < 0.6:
+                acts.append(["rel", own])
+            elif q < 0.8 and (sim.gone or dead):
+                acts.append(["rel", rng.choice(sim.gone + dead)])
+            else:
+                acts.append(["rel", 900 + rng.randint(0, 9)])
+            continue
+        if q < 0.22:
+            acts.append(["rel", own])
+        elif q < 0.50 and peers:
+            acts.append(["rel", rng.choice(peers)[0]])      # another holder: a co-victim, a bystander, a higher priority one
+        elif q < 0.56 and sim.waiters:
+            acts.append(["rel", rng.choice(sim.waiters)[0]])  # not yet given now; may be live when the callback runs
+        elif q < 0.62 and (sim.gone or dead):
+            acts.append(["rel", rng.choice(sim.gone + dead)])
+        elif q < 0.66:
+            acts.append(["rel", sim.nid + rng.randint(0, 3)])  # a call that has not been made yet
+        elif q < 0.88:
+            amt = rng.randint(1, cap) if rng.random() < 0.9 else rng.choice([0, cap + 1])
+            prio = rng.randrange(nprio) if rng.random() < 0.7 else -1    # -1: above everybody, preempts for sure
+            sub = rng.randrange(k) if k > 0 and rng.random() < 0.5 else NO_CB
+            acts.append(["acq", amt, prio, 1 if rng.random() < 0.6 else 0, sub])
+        else:
+            acts.append(["q"])
+    if lift and rng.random() < 0.5:
+        acts.append(["q"])
+    return acts
+
+
+def norm_preempt(case):
+    """ops with an explicit program index; programs may only refer to programs of smaller index (no cycles)"""
+    progs = []
+    for k, acts in enumerate(case.get("progs") or []):
+        row = []
+        for a in acts:
+            if a[0] == "acq":
+                cb = a[4] if len(a) > 4 else NO_CB
+                row.append(["acq", a[1], a[2], a[3], cb if 0 <= cb < k else NO_CB])
+            elif a[0] == "rel":
+                row.append(["rel", a[1]])
+            else:
+                row.append(["q"])
+        progs.append(row)
+    ops = []
+    for op in case["ops"]:
+        if op[0] == "acq":
+            cb = op[4] if len(op) > 4 else NO_CB
+            ops.append(["acq", op[1], op[2], op[3], cb if 0 <= cb < len(progs) else NO_CB])
+        else:
+            ops.append(["rel", op[1]])
+    return {"cap": case["cap"], "progs": progs, "ops": ops, "cbobs": 1 if case.get("cbobs") else 0}
 
 
 class _PlanPreempt:
-    """A rough picture of the resource used by the generator to aim releases at live / preempted / released
-    grants and to apply the generator restriction (no preempting acquire that would leave the head waiter
-    grantable).  It is not used to judge anything."""
+    """A rough picture of the resource (repaired semantics, callbacks included) used by the generator to aim
+    releases at live / preempted / released grants, to predict call ids, and to apply the generator restriction (no
+    preempting acquire that would leave the head waiter grantable).  It is not used to judge anything."""
 
-    def __init__(self, cap):
+    def __init__(self, cap, progs=None):
         self.cap, self.avail = cap, cap
         self.active, self.waiters, self.gone = [], [], []      # (id, amt, prio)
+        self.progs = progs if progs is not None else []
+        self.cb = {}
+        self.nid = 0
+        self.depth = 0
 
     def _victims(self, amt, prio, active, avail):
         active = list(active)
@@ -209,17 +317,46 @@ class _PlanPreempt:
             self.avail -= w[1]
             self.active.append(w)
 
-    def acquire(self, i, amt, prio, pre):
+    def _run(self, acts):
+        for a in list(acts):
+            if a[0] == "rel":
+                self.release(a[1])
+            elif a[0] == "acq":
+                self.acquire(a[1], a[2], a[3], a[4] if len(a) > 4 else NO_CB)
+
+    def acquire(self, amt, prio, pre, cb=NO_CB):
+        """returns the call id"""
         if amt <= 0 or amt > self.cap:
-            return
-        if self.avail < amt and pre:
-            ev, self.active, self.avail = self._victims(amt, prio, self.active, self.avail)
-            self.gone += [g[0] for g in ev]
+            self.nid += 1
+            return self.nid - 1
+        freed = False
+        if self.avail < amt and pre and self.depth < 6:
+            snap = list(self.active)
+            self.depth += 1
+            while self.avail < amt:
+                cands = [g for g in snap if g in self.active and g[2] > prio]
+                if not cands:
+                    break
+                v = max(cands, key=lambda g: g[2])
+                self.active.remove(v)
+                self.avail += v[1]
+                self.gone.append(v[0])
+                freed = True
+                k = self.cb.get(v[0], NO_CB)
+                if 0 <= k < len(self.progs):
+                    self._run(self.progs[k])
+            self.depth -= 1
+        i = self.nid
+        self.nid += 1
+        self.cb[i] = cb
         if self.avail >= amt:
             self.avail -= amt
             self.active.append((i, amt, prio))
         else:
             self.waiters = sorted(self.waiters + [(i, amt, prio)], key=lambda w: (w[2], w[0]))
+        if freed:
+            self._wake()
+        return i
 
     def release(self, i):
         for g in self.active:
@@ -360,52 +497,100 @@ def impl_tpool(case):
 
 
 def impl_preempt(case):
+    """Every line is one observation: `acq i amt prio pre <res> …` when an acquire call returned, `rel i <res> …`
+    after a release call; inside an `on_preempt` callback the lines carry the prefix `cb <victim>`: first
+    `cb v ev <first> <amt> <prio> fired …` (the callback of grant v fired inside an acquire call for (amt, prio);
+    first = 1 for the first victim of that call), then one line per action of v's callback program.  The tail is
+    `pre=<victims of this call> woke=<futures resolved since the previous line>` plus the public counters
+    (`pset` = grants whose `preempted` flag is set, `av`, `s` = stats); nested lines carry the counters only when
+    the case says `cbobs = 1`."""
     from happysimulator.components.industrial.preemptible_resource import PreemptibleResource
 
-    r = PreemptibleResource("r", case["cap"])
-    futs, grants, pending, evicted, out = {}, {}, [], [], []
-    nid = 0
+    c = norm_preempt(case)
+    progs, cbobs = c["progs"], c["cbobs"]
+    r = PreemptibleResource("r", c["cap"])
+    futs, grants, pending, out = {}, {}, [], []
+    nid = [0]
+    ctx = []          # victims whose callbacks are running, innermost last
+    calls = []        # acquire calls in progress, innermost last
 
-    def tail(res):
+    class Stop(Exception):
+        pass
+
+    def emit(head, ev):
         woke = [i for i in pending if futs[i].is_resolved]
         for i in woke:
             pending.remove(i)
             grants[i] = futs[i].value
-        ev = list(evicted)
-        evicted.clear()
-        pset = sorted(i for i, g in grants.items() if g.preempted)
-        s = r.stats
-        return (f"{res} pre={ids(ev)} woke={ids(sorted(woke))} pset={ids(pset)} av={r.available} "
-                f"s={s.acquisitions},{s.releases},{s.preemptions},{s.contentions}")
+        line = (f"cb {ctx[-1]} " if ctx else "") + f"{head} pre={ids(ev)} woke={ids(sorted(woke))}"
+        if not ctx or cbobs:
+            pset = sorted(i for i, g in grants.items() if g.preempted)
+            s = r.stats
+            line += f" pset={ids(pset)} av={r.available} s={s.acquisitions},{s.releases},{s.preemptions},{s.contentions}"
+        out.append(line)
+        if len(out) > WATCHDOG:
+            raise Stop()
 
-    for op in case["ops"]:
-        if op[0] == "acq":
-            _, amt, prio, pre = op
-            i = nid
-            nid += 1
-            pre_s = f"acq {i} {amt} {prio} {pre}"
+    def do_rel(i):
+        g = grants.get(i)
+        if g is None:
+            emit(f"rel {i} noop", [])             # no grant object exists: nothing to call
+            return
+        was = g.released
+        g.release()
+        emit(f"rel {i} " + ("noop" if was else "released"), [])
+
+    def do_acq(amt, prio, pre, cb):
+        call = {"amt": amt, "prio": prio, "ev": []}
+        cell = [None]
+
+        def on_preempt():
+            v = cell[0]
+            cur = calls[-1] if calls else {"amt": 0, "prio": 0, "ev": [0]}
+            first = 0 if cur["ev"] else 1
+            cur["ev"].append(v)
+            ctx.append(v)
             try:
-                f = r.acquire(amt, priority=prio, preempt=bool(pre), on_preempt=(lambda i=i: evicted.append(i)))
-            except ValueError:
-                out.append(f"{pre_s} " + tail("err:ValueError"))
-                continue
-            futs[i] = f
-            if f.is_resolved:
-                grants[i] = f.value
-                out.append(f"{pre_s} " + tail("granted"))
-            else:
-                line = f"{pre_s} " + tail("queued")
-                pending.append(i)
-                out.append(line)
+                emit(f"ev {first} {cur['amt']} {cur['prio']} fired", [])
+                for a in (progs[cb] if 0 <= cb < len(progs) else []):
+                    do_act(a)
+            finally:
+                ctx.pop()
+
+        calls.append(call)
+        try:
+            f = r.acquire(amt, priority=prio, preempt=bool(pre), on_preempt=on_preempt)
+        except ValueError:
+            calls.pop()
+            i = nid[0]
+            nid[0] += 1
+            emit(f"acq {i} {amt} {prio} {pre} err:ValueError", call["ev"])
+            return
+        calls.pop()
+        i = nid[0]
+        nid[0] += 1
+        cell[0] = i
+        futs[i] = f
+        if f.is_resolved:
+            grants[i] = f.value
+            emit(f"acq {i} {amt} {prio} {pre} granted", call["ev"])
         else:
-            i = op[1]
-            g = grants.get(i)
-            if g is None:
-                out.append(f"rel {i} " + tail("noop"))      # no grant object exists: nothing to call
-                continue
-            was = g.released
-            g.release()
-            out.append(f"rel {i} " + tail("noop" if was else "released"))
+            emit(f"acq {i} {amt} {prio} {pre} queued", call["ev"])
+            pending.append(i)
+
+    def do_act(a):
+        if a[0] == "acq":
+            do_acq(a[1], a[2], a[3], a[4])
+        elif a[0] == "rel":
+            do_rel(a[1])
+        else:
+            emit("q obs", [])
+
+    try:
+        for op in c["ops"]:
+            do_act(op)
+    except Stop:
+        out.append("watchdog")
     return out
 
 
@@ -570,6 +755,14 @@ def _schedule_line(line):
     return " ".join(keep)
 
 
+def _act_tok(a):
+    if a[0] == "rel":
+        return f"r{a[1]}"
+    if a[0] == "acq":
+        return f"a{a[1]}:{a[2]}:{a[3]}:{a[4]}"
+    return "q"
+
+
 def model_block(case, variant, impl_out=None):
     fam = case["family"]
     if impl_out is None:
@@ -581,14 +774,16 @@ def model_block(case, variant, impl_out=None):
     if fam == "tpool-engine":
         return (f"tpool {case['workers']} {case['qcap']}", [] if bad else [_schedule_line(l) for l in impl_out])
     if fam == "preempt-direct":
-        body, nid = [], 0
-        for op in case["ops"]:
+        c = norm_preempt(case)
+        body = []
+        for acts in c["progs"]:
+            body.append("prog " + " ".join(_act_tok(a) for a in acts))
+        for op in c["ops"]:
             if op[0] == "acq":
-                body.append(f"acq {nid} {op[1]} {op[2]} {op[3]}")
-                nid += 1
+                body.append(f"acq {op[1]} {op[2]} {op[3]} {op[4]}")
             else:
                 body.append(f"rel {op[1]}")
-        return (f"preempt {case['cap']} {PREEMPT_MODEL_FIX}", body)
+        return (f"preemptcb {c['cap']} {c['cbobs']}", body)
     raise ValueError(fam)
 
 
@@ -604,7 +799,7 @@ def judge_block(case, impl_out):
     if fam == "bulkhead-engine":
         return (f"judge-bulkhead {case['max']} {case['maxq']} {case['wait'] * TICK}", list(impl_out))
     if fam == "preempt-direct":
-        return (f"judge-preempt {case['cap']}", list(impl_out))
+        return (f"judge-preemptcb {case['cap']}", list(impl_out))
     if fam == "tpool-engine":
         return (f"judge-tpool {case['workers']} {case['qcap']}", list(impl_out))
     return None
@@ -644,6 +839,19 @@ def shrink(case):
             if len(cand[key]) < n:
                 yield cand
         step //= 2
+    # callback programs: drop a whole program's actions, then single actions
+    for pi, acts in enumerate(case.get("progs") or []):
+        if acts:
+            cand = dict(case)
+            cand["progs"] = [list(a) for a in case["progs"]]
+            cand["progs"][pi] = []
+            yield cand
+        if len(acts) > 1:
+            for ai in range(len(acts)):
+                cand = dict(case)
+                cand["progs"] = [list(a) for a in case["progs"]]
+                cand["progs"][pi] = acts[:ai] + acts[ai + 1:]
+                yield cand
     # smaller parameters
     for k in ("maxq", "wait", "max", "cap", "workers", "qcap"):
         if isinstance(case.get(k), int) and case[k] > (1 if k in ("max", "cap", "workers") else 0):
